@@ -385,6 +385,9 @@ func runScheduleFull(sc *scenario, prefix []int, expect []vsched.PointInfo, logE
 			return lastFull
 		}
 		onObserve := func(e *vsched.Exec, id int, kind, name string, val uint64) {
+			for id >= len(chains) {
+				chains = append(chains, [32]byte{})
+			}
 			h := sha256.New()
 			h.Write(chains[id][:])
 			h.Write([]byte(kind))
@@ -410,6 +413,9 @@ func runScheduleFull(sc *scenario, prefix []int, expect []vsched.PointInfo, logE
 				}
 				h.Write(b[:])
 			}
+			for id >= len(chains) {
+				chains = append(chains, [32]byte{}) // a goroutine started by the library
+			}
 			copy(chains[id][:], h.Sum(nil))
 		}
 		keyFn := func(e *vsched.Exec) [16]byte {
@@ -425,12 +431,29 @@ func runScheduleFull(sc *scenario, prefix []int, expect []vsched.PointInfo, logE
 			copy(k[:], h.Sum(nil))
 			return k
 		}
-		r.exec = vsched.RunKeyed(bodies, choose, logEvents, keyFn, onObserve)
+		r.exec = watchdog(func() *vsched.Exec { return vsched.RunKeyed(bodies, choose, logEvents, keyFn, onObserve) })
 	} else {
-		r.exec = vsched.Run(bodies, choose, logEvents)
+		r.exec = watchdog(func() *vsched.Exec { return vsched.Run(bodies, choose, logEvents) })
 	}
 	r.globals = globalsHash()
 	return r
+}
+
+// watchdog: one controlled execution takes milliseconds. If it does not come
+// back, a thread of the library is blocked where the scheduler cannot see it
+// (a channel, a real lock): exit with the code that makes ./check fall back to
+// the uncontrolled build instead of hanging or reporting anything.
+func watchdog(run func() *vsched.Exec) *vsched.Exec {
+	done := make(chan *vsched.Exec, 1)
+	go func() { done <- run() }()
+	select {
+	case e := <-done:
+		return e
+	case <-time.After(5 * time.Minute):
+		fmt.Fprintln(os.Stderr, "schedcheck: a controlled execution did not finish within 5 minutes: a library thread is blocked outside the scheduler's control")
+		os.Exit(3)
+	}
+	return nil
 }
 
 type seqRef struct {
@@ -576,6 +599,7 @@ func checkExecution(sc *scenario, seq *seqRef, r *result) string {
 }
 
 var stateDiffers int64
+var singleOutcome int
 
 // seqDamagedShared: the sequential reference execution itself modified a
 // value that was only ever passed as a read-only argument.
@@ -913,6 +937,12 @@ func runC18(ctx *core.Ctx) {
 		"the Go memory model is approximated by sequential consistency plus vector-clock happens-before")
 	setupValues()
 	mo := modelOuts(nil)
+	if why := os.Getenv("VERIF_C18_PLAIN"); why != "" && os.Getenv("VERIF_C18_SHARD") == "" {
+		// The library of this tree cannot be run under the controlled
+		// scheduler: nothing is explored. Said here, and in exhaustive=false.
+		ctx.NotExhaustive("schedules were NOT explored on this tree: " + why + ". Each scenario ran once, uncontrolled; only the value oracle, the read-only-argument checks and the free-running race pass apply")
+		ctx.Extra("controlled_scheduler", "unavailable: "+why)
+	}
 	if os.Getenv("VERIF_C18_SHARD") == "" {
 		subReadOnly.RunList(ctx, readOnlyCases())
 	}
@@ -1096,8 +1126,12 @@ func runC18(ctx *core.Ctx) {
 		for k := range agg.Outcomes {
 			ctx.Distinct("nontrivial:outcomes", []byte(sc.name+k))
 		}
-		if len(agg.Outcomes) < 2 && agg.Fails == 0 && !sc.quiet {
-			ctx.Vacuous("C18: scenario %q produced a single outcome: nothing collided", sc.name)
+		if len(agg.Outcomes) < 2 && agg.Fails == 0 && !sc.quiet && os.Getenv("VERIF_C18_PLAIN") == "" {
+			// Not an error: a tree without lazily built or otherwise shared
+			// mutable state (tables computed at init, say) has nothing to
+			// collide on. Recorded so that the evidence does not overstate.
+			ctx.Note(fmt.Sprintf("scenario %q produced a single outcome under every explored schedule: the calls share no mutable state on this tree", sc.name))
+			singleOutcome++
 		}
 		ctx.Sample(map[string]any{"scenario": sc.name, "threads": len(sc.threads), "schedules": agg.Schedules, "example_schedule_choices": agg.exampleOutcome()})
 		totalSteps += agg.Schedules * int64(agg.MaxPoints)
